@@ -35,5 +35,6 @@ RULES = [
     ("C07.online", lambda c, r: lfht.rule_online(c, r, "C07.online")),   # an offline thread is not a reader: no table access between thread_offline() and thread_online()
     ("C07.mmcases", lambda c, r: __import__("sa.rules.lfht2", fromlist=["x"]).rule_mm_cases(c, r, "C07.mmcases")),
     ("C07.addreplace", lambda c, r: __import__("sa.rules.lfht2", fromlist=["x"]).rule_addreplace(c, r, "C07.addreplace")),   # what add_replace returns: NULL iff own node inserted, the old node only after a successful replace, retry otherwise
+    ("C07.alloc", lambda c, r: __import__("sa.rules.lfht2", fromlist=["x"]).rule_allocdiscipline(c, r, "C07.alloc")),   # memory of a table goes through its cds_lfht_alloc only
 ]
 FLOORS = {}
